@@ -199,7 +199,21 @@ Deliver == /\ rd = "body" /\ Filled
            /\ rd' = "idle" /\ buf' = <<>> /\ need' = 0
            /\ UNCHANGED <<mode, phase, pkts, stream, rfn, hasq, pos, inq, tx, sent, spc, sobj, deliv, crtps>>
 
-Next == \/ \E p \in Packets : AddPacket(p)
+\* defect variant "recv_timeout": a recv() inside _readData times out while the peer pauses in the
+\* middle of a frame; the bytes collected so far are thrown away with the exception
+RecvTimeout == /\ Bug = "recv_timeout" /\ phase = "run" /\ rd \in {"len", "body"}
+               /\ Len(buf) > 0 /\ Len(buf) < need /\ pos < Len(stream)
+               /\ reads' = Append(reads, P!Rejected)
+               /\ rd' = "idle" /\ buf' = <<>> /\ need' = 0
+               /\ UNCHANGED <<mode, phase, pkts, stream, rfn, hasq, queues, pos, inq, tx, sent, spc, sobj, deliv, crtps>>
+\* defect variant "trans_new_queue": makeTransaction by receiver r replaces the queue of its function
+\* (unchanged code: makeTransaction = send the request + receivePacket, i.e. a Get)
+Transact(r) == /\ Bug = "trans_new_queue" /\ r \in Rcv /\ rfn[r] # 0 /\ phase = "run"
+               /\ queues' = [queues EXCEPT ![rfn[r]] = <<>>]
+               /\ UNCHANGED <<mode, phase, pkts, stream, rfn, hasq, pos, rd, need, buf, inq, tx, sent, spc, sobj, reads, deliv, crtps>>
+
+Next == \/ RecvTimeout \/ (\E r \in Rcv : Transact(r))
+        \/ \E p \in Packets : AddPacket(p)
         \/ Start
         \/ \E r \in Rcv, f \in RFns \cup {P!FnCRTP} : Register(r, f)
         \/ \E r \in Rcv : Get(r)
